@@ -1090,3 +1090,4 @@ M('c05-pragma-synchronous-off', 'C05', "        cursor.execute('PRAGMA journal_m
 M('c06-pragma-synchronous-off', 'C06', "        cursor.execute('PRAGMA journal_mode=wal;')", "        cursor.execute('PRAGMA journal_mode=wal;')\n        cursor.execute('PRAGMA synchronous=OFF;')", 'C06.R5', D)
 M('c05-no-explicit-begin', 'C05', "        conn.execute(text('BEGIN'))", "        pass", 'C05.R6', D)
 M('c04-no-explicit-begin', 'C04', "        conn.execute(text('BEGIN'))", "        pass", 'C04.Pdb', D)
+M('c01-progress-wrapper-seek-drops-whence', 'C01', "        return self._stream.seek(target, whence)\n\n    def tell(self) -> int:\n        \"\"\"Return current stream position.\"\"\"", "        return self._stream.seek(target)\n\n    def tell(self) -> int:\n        \"\"\"Return current stream position.\"\"\"", 'C01.R1', U)
